@@ -122,6 +122,12 @@ func c06Run(L int, rekeyFocus bool) {
 	msg := &evmtypes.Message{TurnstoneID: "compass-" + ChainA, ChainReferenceID: ChainA, Assignee: Vals[0].String(), AssigneeRemoteAddress: models.EthAddrs[0],
 		AssignedAtBlockHeight: sdkmath.NewInt(100),
 		Action:                &evmtypes.Message_SubmitLogicCall{SubmitLogicCall: &evmtypes.SubmitLogicCall{HexContractAddress: "0x6666666666666666666666666666666666666666", Payload: []byte{1, 2}, Deadline: 1000, SenderAddress: []byte("sender-address-20byt")}}}
+	// either a user call (fees are attached when the estimate is elected, the message is replaced)
+	// or a validator-set update (no fee payer: only the estimate changes the signing bytes)
+	if sym.Bool("message-is-valset-update") {
+		msg.Action = &evmtypes.Message_UpdateValset{UpdateValset: &evmtypes.UpdateValset{Valset: &evmtypes.Valset{ValsetID: 2,
+			Validators: []string{models.EthAddrs[0], models.EthAddrs[1], models.EthAddrs[2]}, Powers: []uint64{1431655765, 1431655765, 1431655765}}}}
+	}
 	id, err := env.Consensus.PutMessageInQueue(env.Ctx, c06Queue, msg, &consensus.PutOptions{RequireSignatures: true, RequireGasEstimation: true})
 	if err != nil {
 		panic(err)
